@@ -924,3 +924,206 @@ Proof.
          {| m_reqs := []; m_vulns := [] |}, (1, 0).
   vm_compute. repeat split; discriminate.
 Qed.
+
+(* ------------------------------------------------------------------ the depth filter *)
+(* a path of at most k proper edges from a to n *)
+Inductive upto (edges : list edge) : nat -> N -> N -> Prop :=
+| upto_refl k n : upto edges k n n
+| upto_step k a b n : In (a, b) edges -> a <> b -> upto edges k b n -> upto edges (S k) a n.
+
+Lemma parents_In edges a b : In a (parents edges b) <-> In (a, b) edges /\ a <> b.
+Proof.
+  unfold parents. rewrite in_map_iff. split.
+  - intros [[x y] [E H]]. cbn [fst] in E. subst x. apply filter_In in H. destruct H as [H1 H2].
+    cbn [fst snd] in H2. apply andb_true_iff in H2. destruct H2 as [H2 H3]. apply N.eqb_eq in H2. subst y.
+    apply negb_true_iff, N.eqb_neq in H3. auto.
+  - intros [H1 H2]. exists (a, b). split; [reflexivity|]. apply filter_In. split; [exact H1|].
+    cbn [fst snd]. rewrite N.eqb_refl. cbn [andb]. apply negb_true_iff, N.eqb_neq. exact H2.
+Qed.
+Lemma add_new_In xs : forall seen x, In x (add_new seen xs) <-> In x seen \/ In x xs.
+Proof.
+  unfold add_new. induction xs as [|y xs IH]; intros seen x; cbn [fold_left].
+  - cbn. tauto.
+  - rewrite IH. destruct (memN y seen) eqn:E.
+    + apply memN_In in E. cbn [In]. split; [tauto|]. intros [H|[H|H]]; subst; auto.
+    + rewrite in_app_iff. cbn [In]. tauto.
+Qed.
+Lemma upto_S edges k a n : upto edges k a n -> upto edges (S k) a n.
+Proof. induction 1; [constructor|]. econstructor; eassumption. Qed.
+Lemma upto_le edges k k' a n : (k <= k')%nat -> upto edges k a n -> upto edges k' a n.
+Proof. intros Hle. induction Hle as [|k' _ IH]; [auto|]. intros HU. apply upto_S. auto. Qed.
+
+Theorem up_iff_path_lemma edges n : forall k m, In m (up k edges n) <-> upto edges k m n.
+Proof.
+  induction k as [|k IH]; intros m; cbn [up].
+  - cbn [In]. split.
+    + intros [<-|[]]. constructor.
+    + intros H. inversion H; subst. left. reflexivity.
+  - rewrite add_new_In, in_flat_map. split.
+    + intros [H|[b [Hb Hm]]].
+      * apply upto_S. apply IH. exact H.
+      * apply parents_In in Hm. destruct Hm as [H1 H2]. apply (upto_step edges k m b n H1 H2). apply IH. exact Hb.
+    + intros H. inversion H as [k' n'|k' a b n' H1 H2 H3]; subst.
+      * left. apply IH. constructor.
+      * right. exists b. split; [apply IH; exact H3|apply parents_In; auto].
+Qed.
+
+Lemma first_level_Some fuel edges n t : forall k d, first_level fuel k edges n t = Some d ->
+  (k <= d < k + fuel)%nat /\ In t (up d edges n) /\ (forall j, (k <= j < d)%nat -> ~ In t (up j edges n)).
+Proof.
+  induction fuel as [|f IH]; intros k d; cbn [first_level]; [discriminate|].
+  destruct (memN t (up k edges n)) eqn:E.
+  - intros H. inversion H; subst. apply memN_In in E. split; [lia|]. split; [exact E|]. intros j Hj. lia.
+  - intros H. destruct (IH _ _ H) as [H1 [H2 H3]]. split; [lia|]. split; [exact H2|].
+    intros j Hj. destruct (Nat.eq_dec j k) as [->|Hne].
+    + intros HI. apply memN_In in HI. congruence.
+    + apply H3. lia.
+Qed.
+Lemma first_level_None fuel edges n t : forall k, first_level fuel k edges n t = None ->
+  forall j, (k <= j < k + fuel)%nat -> ~ In t (up j edges n).
+Proof.
+  induction fuel as [|f IH]; intros k; cbn [first_level]; [intros _ j Hj; lia|].
+  destruct (memN t (up k edges n)) eqn:E; [discriminate|]. intros H j Hj.
+  destruct (Nat.eq_dec j k) as [->|Hne].
+  - intros HI. apply memN_In in HI. congruence.
+  - apply (IH _ H). lia.
+Qed.
+
+(* the root is within MaxDepth of the vulnerable node - or the walk never reaches the root, in
+   which case the Go code compares the zero value 0 with MaxDepth *)
+Theorem root_dist_le_iff_lemma numnodes edges n (maxd : Z) :
+  (0 < maxd)%Z -> (Z.to_nat maxd <= numnodes)%nat ->
+  ((root_dist numnodes edges n <=? maxd)%Z = true <->
+   upto edges (Z.to_nat maxd) 0 n \/ (forall k, (k <= numnodes)%nat -> ~ upto edges k 0 n)).
+Proof.
+  intros Hpos Hle. unfold root_dist. destruct (first_level (S numnodes) 0 edges n 0) as [d|] eqn:E.
+  - destruct (first_level_Some _ _ _ _ _ _ E) as [H1 [H2 H3]]. rewrite Z.leb_le. split.
+    + intros H. left. apply (upto_le edges d); [lia|]. apply up_iff_path_lemma. exact H2.
+    + intros [H|H].
+      * destruct (Nat.le_gt_cases d (Z.to_nat maxd)) as [Hd|Hd]; [lia|]. exfalso.
+        apply (H3 (Z.to_nat maxd)); [lia|]. apply up_iff_path_lemma. exact H.
+      * exfalso. apply (H d); [lia|]. apply up_iff_path_lemma. exact H2.
+  - rewrite Z.leb_le. split; [|lia]. intros _. right. intros k Hk HU.
+    apply (first_level_None _ _ _ _ _ E k); [lia|]. apply up_iff_path_lemma. exact HU.
+Qed.
+
+Theorem match_depth_iff_lemma maxd numnodes edges nodes :
+  (Z.to_nat maxd <= numnodes)%nat ->
+  (match_depth maxd numnodes edges nodes = true <->
+   (maxd <= 0)%Z \/
+   exists n, In n nodes /\ (upto edges (Z.to_nat maxd) 0 n \/ (forall k, (k <= numnodes)%nat -> ~ upto edges k 0 n))).
+Proof.
+  intros Hle. unfold match_depth. rewrite orb_true_iff, Z.leb_le, existsb_exists.
+  destruct (Z.leb_spec maxd 0) as [Hn|Hp]; [tauto|]. split.
+  - intros [H|[n [Hn H]]]; [lia|]. right. exists n. split; [exact Hn|].
+    apply (root_dist_le_iff_lemma numnodes edges n maxd Hp Hle). exact H.
+  - intros [H|[n [Hn H]]]; [lia|]. right. exists n. split; [exact Hn|].
+    apply (root_dist_le_iff_lemma numnodes edges n maxd Hp Hle). exact H.
+Qed.
+
+(* ------------------------------------------------------------------ the severity filter *)
+Lemma max_score_fold l : forall m,
+  fold_left (fun m s => match s, m with
+                        | Some x, Some y => Some (Z.max x y)
+                        | Some x, None => Some x
+                        | None, _ => m
+                        end) l m =
+  match m, max_score l with
+  | Some a, Some b => Some (Z.max b a)
+  | Some a, None => Some a
+  | None, r => r
+  end.
+Proof.
+  unfold max_score. induction l as [|s l IH]; intros m; cbn [fold_left].
+  - destruct m; reflexivity.
+  - rewrite IH. rewrite (IH (match s with Some x => Some x | None => None end)).
+    destruct s as [x|], m as [a|]; cbn; try reflexivity;
+      destruct (fold_left _ l None) as [b|]; try reflexivity; f_equal; lia.
+Qed.
+Lemma max_score_None l : max_score l = None <-> (forall s, In s l -> s = None).
+Proof.
+  induction l as [|s l IH].
+  - cbn. split; [intros _ s []|reflexivity].
+  - unfold max_score. cbn [fold_left]. rewrite max_score_fold. destruct s as [x|].
+    + split.
+      * destruct (max_score l); discriminate.
+      * intros H. specialize (H (Some x) (or_introl eq_refl)). discriminate.
+    + rewrite IH. split; [intros H s [<-|Hs]; auto|intros H s Hs; apply H; right; exact Hs].
+Qed.
+Lemma max_score_Some l b : max_score l = Some b ->
+  In (Some b) l /\ (forall x, In (Some x) l -> (x <= b)%Z).
+Proof.
+  revert b. induction l as [|s l IH]; intros b.
+  - cbn. discriminate.
+  - unfold max_score. cbn [fold_left]. rewrite max_score_fold. destruct s as [x|].
+    + destruct (max_score l) as [c|] eqn:E.
+      * intros H. inversion H; subst. destruct (IH c eq_refl) as [H1 H2]. split.
+        { destruct (Z.max_spec c x) as [[_ ->]|[_ ->]]; [left; reflexivity|right; exact H1]. }
+        { intros y [Hy|Hy]; [inversion Hy; lia|]. specialize (H2 y Hy). lia. }
+      * intros H. inversion H; subst. split; [left; reflexivity|].
+        intros y [Hy|Hy]; [inversion Hy; lia|]. pose proof (proj1 (max_score_None l) E _ Hy). discriminate.
+    + intros H. destruct (IH b H) as [H1 H2]. split; [right; exact H1|].
+      intros y [Hy|Hy]; [discriminate|auto].
+Qed.
+
+(* no selected severity parses, or some selected score reaches the threshold *)
+Theorem match_severity_iff_lemma thr top aff :
+  match_severity thr top aff = true <->
+  (forall s, In s (selected_scores top aff) -> s = None) \/
+  (exists x, In (Some x) (selected_scores top aff) /\ (thr <= x)%Z).
+Proof.
+  unfold match_severity. destruct (max_score (selected_scores top aff)) as [b|] eqn:E.
+  - destruct (max_score_Some _ _ E) as [H1 H2]. rewrite Z.leb_le. split.
+    + intros H. right. exists b. auto.
+    + intros [H|[x [Hx Hle]]].
+      * specialize (H _ H1). discriminate.
+      * specialize (H2 x Hx). lia.
+  - split; [|reflexivity]. intros _. left. apply max_score_None. exact E.
+Qed.
+
+(* ------------------------------------------------------------------ MatchVuln as a whole *)
+Lemma match_id_false v ids : match_id v ids = false <-> ~ In (f_id v) ids /\ (forall a, In a (f_aliases v) -> ~ In a ids).
+Proof.
+  unfold match_id. rewrite orb_false_iff, memN_false. split.
+  - intros [H1 H2]. split; [exact H1|]. intros a Ha HI.
+    assert (existsb (fun a0 => memN a0 ids) (f_aliases v) = true); [|congruence].
+    apply existsb_exists. exists a. split; [exact Ha|apply memN_In; exact HI].
+  - intros [H1 H2]. split; [exact H1|]. destruct (existsb (fun a => memN a ids) (f_aliases v)) eqn:E; [|reflexivity].
+    apply existsb_exists in E. destruct E as [a [Ha HI]]. apply memN_In in HI. exfalso. exact (H2 a Ha HI).
+Qed.
+
+Theorem match_vuln_full_iff_lemma o th numnodes edges g :
+  (Z.to_nat (th_depth th) <= numnodes)%nat ->
+  (match_vuln_full o th numnodes edges g = true <->
+   (* not ignored, by ID or alias *)
+   (~ In (g_id g) (o_ignore o) /\ (forall a, In a (g_aliases g) -> ~ In a (o_ignore o))) /\
+   (* on the explicit list when there is one *)
+   (o_explicit o = [] \/ In (g_id g) (o_explicit o)) /\
+   (* dev-only vulnerabilities only when asked for *)
+   (o_dev_deps o = true \/ g_dev_only g = false) /\
+   (* severity *)
+   ((forall s, In s (selected_scores (g_top g) (g_aff g)) -> s = None) \/
+    (exists x, In (Some x) (selected_scores (g_top g) (g_aff g)) /\ (th_sev th <= x)%Z)) /\
+   (* depth *)
+   ((th_depth th <= 0)%Z \/
+    exists n, In n (g_nodes g) /\
+      (upto edges (Z.to_nat (th_depth th)) 0 n \/ (forall k, (k <= numnodes)%nat -> ~ upto edges k 0 n)))).
+Proof.
+  intros Hle. unfold match_vuln_full, match_vuln.
+  set (v := to_fvuln th numnodes edges g).
+  rewrite <- (match_severity_iff_lemma (th_sev th) (g_top g) (g_aff g)).
+  rewrite <- (match_depth_iff_lemma (th_depth th) numnodes edges (g_nodes g) Hle).
+  change (g_id g) with (f_id v). change (g_aliases g) with (f_aliases v).
+  rewrite <- (match_id_false v (o_ignore o)).
+  change (match_severity (th_sev th) (g_top g) (g_aff g)) with (f_sev_ok v).
+  change (match_depth (th_depth th) numnodes edges (g_nodes g)) with (f_depth_ok v).
+  change (g_dev_only g) with (f_dev_only v).
+  assert (He : explicit_ok o v = true <-> o_explicit o = [] \/ In (f_id v) (o_explicit o)).
+  { unfold explicit_ok. destruct (o_explicit o) as [|e l]; [split; auto|].
+    rewrite memN_In. split; [auto|intros [H|H]; [discriminate|exact H]]. }
+  rewrite <- He.
+  destruct (match_id v (o_ignore o)); [split; [discriminate|intros [H _]; discriminate]|].
+  destruct (explicit_ok o v); cbn [negb]; [|split; [discriminate|intros [_ [H _]]; discriminate]].
+  destruct (o_dev_deps o), (f_dev_only v); cbn [negb andb]; rewrite ?andb_true_iff; split; try tauto; try discriminate.
+  - intros [_ [_ [[H|H] _]]]; discriminate.
+Qed.
